@@ -18,6 +18,8 @@ STEEL_MATS = ["HT9", "Inconel800", "HastelloyN", "InconelX750", "Zr"]
 SHIELD_MATS = ["HT9", "B4C", "Graphite", "Inconel800"]
 MULTS = [1, 7, 19, 37, 61, 127, 169, 271]
 MAX_BLOCKS = 10  # below the dummy block
+# exactly 0 degC, ends of validity windows of the materials used (Zr 293 K, InconelX750 21.1 C, B4C 25 C and 500 C)
+SPECIAL_TEMPS = [0.0, 19.85, 21.1, 25.0, 500.0, 600.0]
 
 
 def _r(x, n=4):
@@ -60,7 +62,8 @@ def asm_spec(force_plenum=False, auto_targets_only=False):
             "aclp": st.booleans(),
             "nDuct": st.integers(0, 1),
             "heights": st.lists(st.floats(1.0, 150.0).map(_r), min_size=1, max_size=MAX_BLOCKS),
-            "temps": st.lists(st.floats(25.0, 600.0).map(lambda x: _r(x, 1)), min_size=1, max_size=MAX_BLOCKS),
+            "temps": st.lists(st.one_of(st.sampled_from([0.0, 0.0] + SPECIAL_TEMPS), st.floats(0.0, 600.0).map(lambda x: _r(x, 1))),
+                              min_size=1, max_size=MAX_BLOCKS),
             "tempMode": st.sampled_from(["uniform", "uniform", "perComponent"]),
             "targets": st.lists(target, min_size=1, max_size=MAX_BLOCKS),
             "dummyFrac": st.floats(1.0, 2.5).map(_r),
@@ -185,7 +188,7 @@ def layout(spec):
                 c["Thot"] = T
             else:
                 c["Thot"] = _r({"fuel": T + 130.0, "control": T + 60.0, "shield": T + 10.0, "clad": T + 20.0, "wire": T,
-                                "duct": max(25.0, T - 15.0), "grid": T}.get(c["name"], T), 1)
+                                "duct": max(0.0, T - 15.0), "grid": T}.get(c["name"], T), 1)
         blocks.append(
             {
                 "kind": kind,
